@@ -399,9 +399,15 @@ func sameVal(a, b Val) bool {
 	case MapV:
 		y, ok := b.(MapV)
 		return ok && x.M == y.M && x.Nil.S == y.Nil.S
+	case IterV:
+		y, ok := b.(IterV)
+		return ok && x.Cur.S == y.Cur.S && x.Prefix.S == y.Prefix.S
 	case BatchV:
 		y, ok := b.(BatchV)
-		if !ok || x.DB != y.DB || x.D.S != y.D.S || len(x.Ops) != len(y.Ops) {
+		if !ok || x.DB != y.DB || x.D.S != y.D.S || len(x.Ops) != len(y.Ops) || (x.Base == nil) != (y.Base == nil) {
+			return false
+		}
+		if x.Base != nil && (x.Base.T.S != y.Base.T.S || x.Base.H.S != y.Base.H.S || x.Base.V.S != y.Base.V.S) {
 			return false
 		}
 		for i := range x.Ops {
